@@ -148,16 +148,22 @@ def neutral_of_generic(it: Interp, v: Any) -> Any:
             if n == "Prefix":
                 return ("ns",) + items
             return (n,) + items
-        vals = list(v.attrs.values())
+        # the generic term classes expose their components through these attributes (the same ones the encoder reads);
+        # further private attributes a class may carry are ignored
+        def comp(name: str) -> Any:
+            if name not in v.attrs:
+                raise AnalysisError(f"generic term {n} has no attribute {name} (anchor vanished)")
+            return v.attrs[name]
+
         if n == "IRI":
-            return ("iri", vals[0] if len(vals) == 1 else tuple(vals))
+            return ("iri", comp("_iri"))
         if n == "BlankNode":
-            return ("bnode", vals[0] if len(vals) == 1 else tuple(vals))
+            return ("bnode", comp("_identifier"))
         if n == "Literal":
-            return ("lit",) + tuple(vals)
+            return ("lit", comp("_lex"), comp("_langtag"), comp("_datatype"))
         if n == "_DefaultGraph":
             return ("default",)
-        return (n,) + tuple(neutral_of_generic(it, x) for x in vals)
+        return (n,) + tuple(neutral_of_generic(it, x) for x in v.attrs.values())
     if v is None:
         return None
     return v
@@ -273,6 +279,10 @@ def write_generic(k: K.Kit, physical: int, stmts: list[tuple], opts: Obj, *, via
     enc = k.generic_encoder(k.attr(opts, "lookup_preset"))
     stream = k.stream(STREAM_FOR[physical], enc, opts)
     objs = [generic_statement(k, st) for st in stmts]
+    if via == "flat":
+        frames = it.drain(k.call(k.get(K.GS, "flat_stream_to_frames"), k.generator(objs), opts))
+        streams = [e["obj"] for e in it.events if e["kind"] == "setattr" and e["attr"] == "flow" and isinstance(e.get("obj"), Obj) and isinstance(e.get("value"), Obj)]
+        return frames, (streams[-1] if streams else stream)
     if via == "grouped2":
         half = (len(objs) + 1) // 2
         sinks = [k.g_sink(objs[:half], namespaces), k.g_sink(objs[half:], namespaces)]
@@ -308,6 +318,10 @@ def rdflib_store_for(k: K.Kit, physical: int, stmts: list[tuple], namespaces: li
 def write_rdflib(k: K.Kit, physical: int, stmts: list[tuple], opts: Obj, *, via: str = "store", namespaces: list | None = None) -> tuple[list, Obj]:
     it = k.it
     stream = k.method(k.get(K.ST, STREAM_FOR[physical]), "for_rdflib", opts)
+    if via == "flat":
+        frames = it.drain(k.call(k.get(K.RS, "flat_stream_to_frames"), k.generator([rdflib_statement(k, st) for st in stmts]), opts))
+        streams = [e["obj"] for e in it.events if e["kind"] == "setattr" and e["attr"] == "flow" and isinstance(e.get("obj"), Obj) and isinstance(e.get("value"), Obj)]
+        return frames, (streams[-1] if streams else stream)
     if via == "grouped2":
         half = (len(stmts) + 1) // 2
         stores = [rdflib_store_for(k, physical, stmts[:half], namespaces), rdflib_store_for(k, physical, stmts[half:], namespaces)]
